@@ -69,6 +69,17 @@ def infBits (t : Ty) : Nat := if t.w = 4 then 0x7F800000 else 0x7FF0000000000000
 /-- NaN patterns (outside the property's quantifier) -/
 def isNaN (t : Ty) (x : Nat) : Bool := t.kind == .float && decide (infBits t < fmag t x)
 
+/-! ### `partial_cmp` / `==` on non-NaN float patterns (the two zeros are equal) -/
+
+/-- IEEE zero of either sign -/
+def isZeroF (t : Ty) (x : Nat) : Bool := fmag t x == 0
+/-- `partial_cmp(a,b) != Greater` on non-NaN patterns: totalOrder, except that −0.0 and +0.0 are equal -/
+def pleB (t : Ty) (a b : Nat) : Bool := leB t a b || (isZeroF t a && isZeroF t b)
+/-- float `==` on non-NaN patterns -/
+def feqB (t : Ty) (a b : Nat) : Bool := a == b || (isZeroF t a && isZeroF t b)
+/-- representative of the `==` class: −0.0 ↦ +0.0, everything else itself -/
+def canon (t : Ty) (x : Nat) : Nat := if fmag t x = 0 then 0 else x
+
 /-- THE SPEC: `out` is `inp` sorted in the type's order -/
 def IsSortOf (t : Ty) (inp out : List Nat) : Prop := out.Perm inp ∧ out.Pairwise (le t)
 
